@@ -290,3 +290,64 @@ PROPS["C05"] = dict(
     assumptions=TRUST_BASE,
     stages=dict(quick=[native("dbg")], thorough=[native("dbg"), native("rel")]),
 )
+
+PROPS["C06"] = dict(
+    level="exploration",
+    technique="history + reference model with value semantics; the generator runs the model alongside and makes the program dump the complete stored state of every variable after every step; unique written values make reads identify writes",
+    level_text=("Histories of 5-14 (quick) / 5-40 (thorough) operations over 2-5 variables: index writes incl. beyond the end, "
+                "dictionary keys of every scalar kind, nested subscript writes, rock (none/one/list/poetic) on arrays, scalars and "
+                "mysterious, roll as statement / into / expression / past empty, copies by assignment, by storing into another array "
+                "and by argument passing followed by mutation of either side, arrays in arithmetic and comparison, compound "
+                "assignment on an element, terminal error cases. After every step all variables are dumped (length, every index and "
+                "one past the end, every dictionary key, nested arrays two levels deep), so stored state rather than one read is "
+                "compared with the model; an alias shows as a change in a variable that was not the target."),
+    level_note="Assignment into a string index and roll of a non-array are don't-care (the statements leave them open).",
+    rule=("cases = operation histories; distinct_nontrivial = distinct program texts with >= 3 operations whose every dump line, outcome and statement count agreed with the model."),
+    require=["histories", "operations", "copy_then_mutate_pairs", "dump_lines_compared", "op.index_write_beyond_end",
+             "op.dictionary_write", "op.nested_write", "op.rock_scalar", "op.rock_mysterious", "op.roll_past_empty",
+             "op.roll_into", "op.copy_by_assignment", "op.copy_by_storing_into_array", "op.argument_passing",
+             "op.array_in_expression", "op.error_array_as_key_read", "op.error_array_as_key_write"],
+    assumptions=TRUST_BASE,
+    stages=dict(quick=[native("dbg")],
+                thorough=[native("dbg"), native("rel"),
+                          custom("miri_stage", release=False, shards=16, scale=1, name="miri:dev")]),
+)
+
+PROPS["C07"] = dict(
+    level="exploration",
+    technique="history + reference model (own splitter, radix parser, code-point rules, rounding) over a catalogue of hostile operands x parameters x statement forms, with full dumps of operand and destination",
+    level_text=("Cut / join / cast / turn on catalogued operands (empty, multi-byte, delimiter at ends / repeated / overlapping / "
+                "longer than the text, arrays with non-string elements or dictionary entries, numeric strings of every shape, "
+                "every radix from -1 to 40 plus 1e30, 2.5, NaN, non-numbers, code points at every boundary incl. surrogates, "
+                "fractions at .5, -0, huge, NaN, infinities), in place on a variable or pronoun, into a variable or a subscript, "
+                "from a subscript, a literal or an unknown name. The program then dumps operand and destination; stdout, outcome "
+                "and statement count must equal the reference model's (errors, never crashes or wrong values)."),
+    level_note="Trusted: str::parse::<f64> for decimal casts and f64 ceil/floor/round (same std functions on both sides; a different rounding rule or parser in rrss would still differ from them).",
+    rule=("cases = (operation, operand, parameter, form) programs; distinct_nontrivial = distinct program texts that agreed with the model."),
+    require=["cases", "ok_outcomes_agreed", "error_outcomes_agreed", "set:radices:42", "set:model_error_kinds:10",
+             "cases.cut.IntoVariable", "cases.cut.InPlaceVariable", "cases.join.IntoSubscript", "cases.cast_string.InPlacePronoun",
+             "cases.cast_number.FromSubscriptInto", "cases.turn.InPlaceVariable", "cases.turn.FromSubscriptInto"],
+    assumptions=TRUST_BASE,
+    stages=dict(quick=[native("dbg"), native("rel")], thorough=[native("dbg"), native("rel")]),
+)
+
+PROPS["C08"] = dict(
+    level="fault_enumeration",
+    technique="offline checker over the merged event log (recording Write/Read + H3 statement boundaries on one sequence counter) against the reference model; injected stream faults at EVERY call position of each program's fault-free history",
+    level_text=("For each generated program x input: fault-free histories (plain, short writes, Interrupted calls) are checked for "
+                "exact output bytes, one complete line per say before the next statement starts, and exactly one line consumed "
+                "per listen (line-at-a-time reader, with and without destination, at end of input, lines longer than the 8 KiB "
+                "buffer). Then for W write calls and R read calls every k in 1..=W x {error, Ok(0)} and every k in 1..=R x {error, "
+                "invalid UTF-8} is run: the result must be an error (no panic, no success), no read/write call may follow the "
+                "fault, and the bytes the writer holds must be exactly what the fault-free run had written by that call. "
+                "Enumeration of fault positions is complete per program; programs and inputs are sampled."),
+    level_note="Faults are injected at the Read/Write boundary handed to exec_using (the same boundary the CLI wires to stdin/stdout).",
+    rule=("cases = (program, input, fault plan) runs; distinct_nontrivial = distinct (program, input) pairs whose fault-free history "
+          "interleaves read and write calls and for which every fault position was enumerated."),
+    exhaustive="per program: every write-call and read-call position x every fault kind",
+    require=["programs", "fault_plans_run", "fault_plans_held", "histories.fault_free", "histories.short_writes",
+             "histories.interrupted", "histories_with_read_write_interleaving", "fault_kind.write_error",
+             "fault_kind.write_zero", "fault_kind.read_error", "fault_kind.read_invalid_utf8", "events_checked"],
+    assumptions=TRUST_BASE,
+    stages=dict(quick=[native("dbg")], thorough=[native("dbg"), native("rel")]),
+)
